@@ -500,7 +500,8 @@ class Interp:
                         # (sym or True) -> True
                         return True
                     return val
-                result = val
+                # a concrete operand that does not decide the result only matters if it is the last one
+                result = val if i == len(node.values) - 1 else None
                 continue
             if isinstance(t, Opaque):
                 return t
